@@ -1,10 +1,11 @@
 import WcModel.Properties.C17
 #print axioms WcModel.C17.case_table
 #print axioms WcModel.C17.case_wins
+#print axioms WcModel.C17.gen_FORCEUNIX
 #print axioms WcModel.C17.fn_force_both_cancel
 #print axioms WcModel.C17.fn_single_platform_kept
 #print axioms WcModel.C17.ci_closed
 #print axioms WcModel.C17.ci_pattern_case
 #print axioms WcModel.C17.nonvacuous
-#print axioms WcModel.Re.M_ci_sim
 #print axioms WcModel.C17.allCi'_eq
+#print axioms WcModel.Re.M_ci_sim
